@@ -301,7 +301,7 @@ class Writer(BaseValidator):
         for check in self.cid.check_map.values():
             check.reset()
 
-        data_format = cid_or_path.data_format
+        data_format = self.cid.data_format
         assert self.cid.data_format.is_valid
         self._header = data_format.header
         self._delegated_writer = None
